@@ -84,9 +84,9 @@ func Run(ctx *vrun.Ctx, prop string) error {
 		}
 		if ctx.Thorough {
 			models = []ModelCfg{
-				{Name: "headers3", N: 3, Works: "{1,2}", Flaws: allFlaws, Headers: true, Graph: true},
-				{Name: "headers3m", N: 3, Works: "{1}", Flaws: `{"connect"}`, Headers: true, Manual: 1, Graph: true, MaxPaths: 100000},
-				{Name: "headers4", N: 4, Works: "{1}", Flaws: `{"connect"}`, Headers: true, Graph: true, MaxPaths: 100000},
+				{Name: "headers3", N: 3, Works: "{1,2}", Flaws: allFlaws, Headers: true, Graph: true, MaxPaths: 60000},
+				{Name: "headers3m", N: 3, Works: "{1}", Flaws: `{"connect"}`, Headers: true, Manual: 1, Graph: true, MaxPaths: 40000},
+				{Name: "headers4", N: 4, Works: "{1}", Flaws: `{"connect"}`, Headers: true, Graph: true, MaxPaths: 50000},
 			}
 		}
 	}
